@@ -9,6 +9,7 @@ package prefix
 // key of the lease table: the wire form of the client identifier, which identifies the client
 // (C08: leases of different client identifiers are kept apart)
 //@ func recordKey
+//@   requires d != nil
 //@   modifies nothing
 //@   ensures[C08,C09:key-is-the-wire-form-of-the-duid] ret == duidwire(d)
 
